@@ -830,7 +830,7 @@ func isPrintfLike(f *ssa.Function, name string) int {
 			last := sig.Params().At(n - 1)
 			prev := sig.Params().At(n - 2)
 			if typeStr(last.Type()) == "[]interface{}" || typeStr(last.Type()) == "[]any" {
-				if b, ok := prev.Type().Underlying().(*types.Basic); ok && b.Kind() == types.String && (prev.Name() == "format" || prev.Name() == "f") {
+				if b, ok := prev.Type().Underlying().(*types.Basic); ok && b.Kind() == types.String && forwardsFormat(f, 0) {
 					idx := n - 2
 					if sig.Recv() != nil {
 						idx++
@@ -1069,4 +1069,83 @@ func yamlIntoNode(name string, cc *ssa.CallCommon) bool {
 		return false
 	}
 	return strings.HasSuffix(types.TypeString(unwrap(cc.Args[1]).Type(), nil), "yaml.v3.Node")
+}
+
+// forwardsFormat: the function hands its (string, ...any) tail on to a printf-like function as format and arguments. This
+// is what makes it printf-like; the names of the parameters play no role.
+func forwardsFormat(f *ssa.Function, depth int) bool {
+	if depth > 3 || f.Blocks == nil || len(f.Params) < 2 {
+		return false
+	}
+	fp, ap := f.Params[len(f.Params)-2], f.Params[len(f.Params)-1]
+	found := false
+	eachInstr(f, func(_ *ssa.BasicBlock, _ int, in ssa.Instruction) {
+		call, ok := in.(ssa.CallInstruction)
+		if !ok || found {
+			return
+		}
+		cc := call.Common()
+		g := staticCallee(cc)
+		name := calleeFullName(cc)
+		if g != nil && inModule(g) {
+			name = FuncName(g)
+		}
+		fi := -1
+		switch name {
+		case "fmt.Sprintf", "fmt.Errorf", "fmt.Printf":
+			fi = 0
+		case "fmt.Fprintf":
+			fi = 1
+		case "(*github.com/fatih/color.Color).Fprintf":
+			fi = 2
+		case "(*github.com/fatih/color.Color).Printf", "(*github.com/fatih/color.Color).Sprintf":
+			fi = 1
+		default:
+			if g != nil && inModule(g) && g != f && g.Signature.Variadic() && forwardsFormat(g, depth+1) {
+				fi = len(g.Params) - 2
+			}
+		}
+		if fi < 0 || fi+1 >= len(cc.Args) {
+			return
+		}
+		if fromParam(cc.Args[fi], fp, 0) && cc.Args[fi+1] == ssa.Value(ap) {
+			found = true
+		}
+	})
+	return found
+}
+
+// fromParam: v is the parameter, or a string built from it (a prefix or suffix added, a Sprintf around it).
+func fromParam(v ssa.Value, prm *ssa.Parameter, depth int) bool {
+	if depth > 4 {
+		return false
+	}
+	switch x := v.(type) {
+	case *ssa.Parameter:
+		return x == prm
+	case *ssa.Phi:
+		for _, e := range x.Edges {
+			if fromParam(e, prm, depth+1) {
+				return true
+			}
+		}
+	case *ssa.BinOp:
+		return fromParam(x.X, prm, depth+1) || fromParam(x.Y, prm, depth+1)
+	case *ssa.Call:
+		for _, a := range x.Call.Args {
+			if fromParam(a, prm, depth+1) {
+				return true
+			}
+			if va, ok := variadicArgs(a); ok {
+				for _, e := range va {
+					if fromParam(e, prm, depth+1) {
+						return true
+					}
+				}
+			}
+		}
+	case *ssa.MakeInterface:
+		return fromParam(x.X, prm, depth+1)
+	}
+	return false
 }
